@@ -25,7 +25,7 @@
 (***************************************************************************)
 EXTENDS UrwidScreenCore, Json
 
-CONSTANTS Ident,      \* "kitty" | "konsole" | "other"
+CONSTANTS Ident,      \* "kitty" | "konsole" | "forced" (other terminal, KittyImage.forced_support) | "other"
           Style3,     \* style of widget slot 3: "block" | "iterm2" | "kitty"
           Bits,       \* z-index space (see AllocOutcomes)
           Fams,       \* layout families explored, subset of {"P","Q","R","S","O","L","F","T","I"}
@@ -325,20 +325,21 @@ RedrawSame ==
 
 \* cls: the widget is an instance of UrwidImage itself (0), of a subclass (1) or of a subclass of a
 \* subclass (2): the allocator is ONE counter and ONE free pool shared by all of them
+\* uz: the widget's format spec carries a z-index field (documented as ignored: the allocated index is used)
 NewWidget ==
-  Dyn /\ ~dc /\ \E w \in Slots, cls \in 0..2 :
+  Dyn /\ ~dc /\ \E w \in Slots, cls \in 0..2, uz \in 0..1 :
     /\ ~wdt[w].alive
     /\ IF StyleOf(w) # "kitty"
          THEN /\ wdt' = [wdt EXCEPT ![w] = [alive |-> TRUE, dropped |-> FALSE, z |-> 0]]
-              /\ out' = [op |-> "new", arg |-> Par("w", w, 0, cls, 0), toks |-> <<>>, res |-> ""]
+              /\ out' = [op |-> "new", arg |-> Par("w", w, 0, cls, uz), toks |-> <<>>, res |-> ""]
               /\ UNCHANGED <<nxt, free>>
          ELSE IF AllocOutcomes(Bits, nxt, free) = {}
-           THEN /\ out' = [op |-> "new", arg |-> Par("w", w, 0, cls, 0), toks |-> <<>>, res |-> "UrwidImageError"]
+           THEN /\ out' = [op |-> "new", arg |-> Par("w", w, 0, cls, uz), toks |-> <<>>, res |-> "UrwidImageError"]
                 /\ UNCHANGED <<wdt, nxt, free>>
            ELSE \E o \in AllocOutcomes(Bits, nxt, free) :
                   /\ wdt' = [wdt EXCEPT ![w] = [alive |-> TRUE, dropped |-> FALSE, z |-> o.z]]
                   /\ nxt' = o.next /\ free' = o.free
-                  /\ out' = [op |-> "new", arg |-> Par("w", w, o.z, cls, 0), toks |-> <<>>, res |-> ""]
+                  /\ out' = [op |-> "new", arg |-> Par("w", w, o.z, cls, uz), toks |-> <<>>, res |-> ""]
     /\ wdis' = [wdis EXCEPT ![w] = 0]
     /\ UNCHANGED <<T, cv, cdis, scr, started, last, ulast, same, ok, taint, dc>>
 
@@ -389,8 +390,9 @@ Spec == Init /\ [][Next]_vars
 \* after every successful redraw the terminal shows exactly the images of the canvas just drawn
 PlacementsExact == ok => Shown(T, GFX) = ImpliedNow
 
-\* kitty stacks a line sent twice at the same cell and z-index: no image line is present twice
-NoDuplicates == Ident = "kitty" => Len(T.pl) = Cardinality(Shown(T, GFX))
+\* every terminal but Konsole stacks a line sent twice at the same cell and z-index (the widget renders
+\* with blend=False there: each strip first deletes what the cursor cell holds): no image line twice
+NoDuplicates == Ident # "konsole" => Len(T.pl) = Cardinality(Shown(T, GFX))
 
 IsRedrawOp == out.op \in {"redraw", "same", "bad"}
 OutputBracketed == IsRedrawOp => Bracketed(out.toks) /\ T.sync = 0
